@@ -36,6 +36,7 @@ structure Prof where
   wNext : Nat := 3          -- next_id followed by add of the id
   wKeys : Nat := 1
   invalidPct : Nat := 0     -- chance (percent) of emitting a proposal that fails `okStepB`
+  wildPct : Nat := 0        -- chance (percent) that an id argument is at or above the capacity
 
 def profGc : Prof := {}
 def profRw : Prof := { wBind := 20, wKid := 12, wKids := 8, wPut := 12, wData := 8 }
@@ -77,9 +78,12 @@ def genHex (rng : Rng) : Rng × Hex :=
     let body := bs.take 8
     (rng, .inline (body ++ List.replicate (8 - body.length) 0xAA) body.length)
 
-def pickId (rng : Rng) (r : R) (cap : Nat) (aliveBias : Nat) : Rng × Nat :=
-  let (rng, a) := rng.below 100
-  if a < aliveBias ∧ r.ids ≠ [] then rng.pick r.ids else rng.below cap
+def pickId (rng : Rng) (r : R) (cap : Nat) (aliveBias : Nat) (wildPct : Nat := 0) : Rng × Nat :=
+  let (rng, w) := rng.below 100
+  if w < wildPct then rng.pick [cap, cap + 1, 2 ^ 64 - 1, cap + 1000]
+  else
+    let (rng, a) := rng.below 100
+    if a < aliveBias ∧ r.ids ≠ [] then rng.pick r.ids else rng.below cap
 
 def unreadIds (r : R) : List Nat := r.ids.filter (fun v => r.unr v)
 
@@ -92,11 +96,11 @@ def propose (s : GenSt) (p : Prof) : Rng × List Op :=
     let (rng, v) := rng.below s.cap
     (rng, [.add v])
   else if x < p.wAdd + p.wAddPresent then
-    let (rng, v) := pickId rng r s.cap 100
+    let (rng, v) := pickId rng r s.cap 100 p.wildPct
     (rng, [.add v])
   else if x < p.wAdd + p.wAddPresent + p.wBind then
-    let (rng, v1) := pickId rng r s.cap 97
-    let (rng, v2) := pickId rng r s.cap 97
+    let (rng, v1) := pickId rng r s.cap 97 p.wildPct
+    let (rng, v2) := pickId rng r s.cap 97 p.wildPct
     let (rng, k) := rng.below 4
     -- mostly an existing label of v1 (overwrite) or a fresh one
     let (rng, l) := if k = 0 ∧ r.edg v1 ≠ [] then
@@ -104,30 +108,30 @@ def propose (s : GenSt) (p : Prof) : Rng × List Op :=
       else rng.pick s.labels
     (rng, [.bind v1 v2 l])
   else if x < p.wAdd + p.wAddPresent + p.wBind + p.wPut then
-    let (rng, v) := pickId rng r s.cap 97
+    let (rng, v) := pickId rng r s.cap 97 p.wildPct
     let (rng, d) := genHex rng
     (rng, [.put v d])
   else if x < p.wAdd + p.wAddPresent + p.wBind + p.wPut + p.wPutAgain then
     let us := unreadIds r
-    let (rng, v) := if us ≠ [] then rng.pick us else pickId rng r s.cap 97
+    let (rng, v) := if us ≠ [] then rng.pick us else pickId rng r s.cap 97 p.wildPct
     let (rng, d) := genHex rng
     (rng, [.put v d])
   else if x < p.wAdd + p.wAddPresent + p.wBind + p.wPut + p.wPutAgain + p.wData then
-    let (rng, v) := pickId rng r s.cap 97
+    let (rng, v) := pickId rng r s.cap 97 p.wildPct
     (rng, [.data v])
   else if x < p.wAdd + p.wAddPresent + p.wBind + p.wPut + p.wPutAgain + p.wData + p.wDataUnread then
     let us := unreadIds r
-    let (rng, v) := if us ≠ [] then rng.pick us else pickId rng r s.cap 97
+    let (rng, v) := if us ≠ [] then rng.pick us else pickId rng r s.cap 97 p.wildPct
     (rng, [.data v])
   else if x < p.wAdd + p.wAddPresent + p.wBind + p.wPut + p.wPutAgain + p.wData + p.wDataUnread + p.wKid then
-    let (rng, v) := pickId rng r s.cap 97
+    let (rng, v) := pickId rng r s.cap 97 p.wildPct
     let (rng, k) := rng.below 3
     let (rng, l) := if k ≠ 0 ∧ r.edg v ≠ [] then
         let (rng, e) := rng.pick (r.edg v); (rng, e.1)
       else rng.pick s.labels
     (rng, [.kid v l])
   else if x < p.wAdd + p.wAddPresent + p.wBind + p.wPut + p.wPutAgain + p.wData + p.wDataUnread + p.wKid + p.wKids then
-    let (rng, v) := pickId rng r s.cap 97
+    let (rng, v) := pickId rng r s.cap 97 p.wildPct
     (rng, [.kids v])
   else if x < p.wAdd + p.wAddPresent + p.wBind + p.wPut + p.wPutAgain + p.wData + p.wDataUnread + p.wKid + p.wKids + p.wNext then
     match r.nextId s.cap with
@@ -193,7 +197,7 @@ def genRandomHistory (rng : Rng) (p : Prof) (len : Nat) : Rng × Array String :=
 /-! ### scripted prefixes aiming at the limits -/
 
 /-- create `k` groups of two (ids 2i, 2i+1), then a random body -/
-def genManyGroups (rng : Rng) (k : Nat) (len : Nat) : Rng × Array String :=
+def genManyGroups (rng : Rng) (k : Nat) (len : Nat) (force : Bool := false) : Rng × Array String :=
   let (rng, n) := rng.pick [2, 4, 16]
   let (rng, extra) := rng.below 12
   let cap := 2 * k + 2 + extra
@@ -202,13 +206,13 @@ def genManyGroups (rng : Rng) (k : Nat) (len : Nat) : Rng × Array String :=
     let ops : List Op := [.add (2 * i), .add (2 * i + 1), .bind (2 * i) (2 * i + 1) (.alpha 0), .put (2 * i + 1) (Hx.Hex.ofBytes [UInt8.ofNat i])]
     match s.tryOps ops with
     | some s' => s'
-    | none => s) s
+    | none => if force then ops.foldl (fun s op => s.emit op) s else s) s
   let s := (List.range len).foldl (fun s _ => s.stepRandom profGc) s
   let s := s.drain
   (s.rng, s.lines)
 
 /-- one group filled to `m` members, then a random body -/
-def genBigGroup (rng : Rng) (m : Nat) (len : Nat) : Rng × Array String :=
+def genBigGroup (rng : Rng) (m : Nat) (len : Nat) (force : Bool := false) : Rng × Array String :=
   let (rng, n) := rng.pick [1, 2, 16]
   let (rng, extra) := rng.below 8
   let cap := m + 2 + extra
@@ -217,7 +221,7 @@ def genBigGroup (rng : Rng) (m : Nat) (len : Nat) : Rng × Array String :=
     let ops : List Op := if i = 0 then [.add 0] else [.add i, .bind i (i - 1) (.alpha 0)]
     match s.tryOps ops with
     | some s' => s'
-    | none => s) s
+    | none => if force then ops.foldl (fun s op => s.emit op) s else s) s
   let s := (List.range len).foldl (fun s _ => s.stepRandom profGc) s
   let s := s.drain
   (s.rng, s.lines)
@@ -502,7 +506,11 @@ def genProfile (profile : String) (seed : Nat) (count len : Nat) : Array String 
       | "gc" => genRandomHistory rng profGc len
       | "rw" => genRandomHistory rng profRw len
       | "alloc" => genRandomHistory rng profAlloc len
-      | "abuse" => genRandomHistory rng { profGc with invalidPct := 30 } len
+      | "abuse" =>
+        if i % 4 = 0 then genRandomHistory rng { profGc with invalidPct := 40, wildPct := 3 } len
+        else if i % 4 = 1 then genRandomHistory rng { profGc with invalidPct := 100, wBind := 40, wAdd := 14 } len
+        else if i % 4 = 2 then genBigGroup rng (15 + i % 5) len true
+        else genManyGroups rng (13 + i % 4) len true
       | "limits" =>
         if i % 3 = 0 then genManyGroups rng (13 + (i / 3) % 2) len
         else if i % 3 = 1 then genBigGroup rng (14 + (i / 3) % 3) len
